@@ -132,6 +132,8 @@ PackLen == HasBytes(t.cls) =>
   /\ \A i \in 1..NBytes(t.cls, t.n) : Pack(t.cls, t.codes)[i] \in 0..255
 
 WriteInv == w > 0 => WroteOK(t, rep, dk, w, dst)
+\* writing in pieces (short transfers of the operating system) gives the same destination
+ShortTransferInv == (w = 1) => ShortTransferOK(DestInit(dk), WBytes)
 
 \* agreement of all representations with each other, once per logical tensor (on the unrepresented state)
 AgreeAllInv == rep = NoRep => AgreeAll(t)
